@@ -28,7 +28,7 @@ Definition documented : facts := {|
   f_sp_drops := [("normalize_mapping_per_keysrules", [2%nat]); ("normalize_mapping_per_valuesrules", [2%nat]); ("normalize_sequence_per_schema", [2%nat]); ("normalize_sequence_per_items", [2%nat]); ("validate_logical", [3%nat]); ("validate_keysrules", [2%nat]); ("validate_schema_sequence", [2%nat]); ("validate_valuesrules", [2%nat])];
   f_forwards_update := [("validate_unknown_fields", true); ("validate_items", true); ("validate_logical", true); ("validate_keysrules", false); ("validate_schema_mapping", true); ("validate_schema_sequence", true); ("validate_valuesrules", true)];
   f_pipeline := ["normalize_rename_fields"; "normalize_purge_unknown?self.purge_unknown and (not self.allow_unknown)"; "normalize_purge_readonly?self.purge_readonly"; "validate_readonly_fields"; "normalize_default_fields"; "normalize_coerce"; "normalize_containers"; "set_is_normalized"];
-  f_worklist := ["queue:empty_fields_with_default_setter_in_order"; "pop_front"; "call"; "except KeyError:requeue_back"; "except Exception:file_own_field"; "state:hash_of_tuple"; "seen:file_all_pending_and_stop"; "unseen:remember"];
+  f_worklist := ["queue:empty_fields_with_default_setter_in_order"; "pop_front"; "call"; "except KeyError:requeue_back"; "except Exception:file_own_field"; "state:tuple"; "seen:file_all_pending_and_stop"; "unseen:remember"];
   f_resets := ["_errors=errors.ErrorList()"; "recent_error=None"; "document_error_tree=errors.DocumentErrorTree()"; "schema_error_tree=errors.SchemaErrorTree()"; "document=copy(document)"; "if not self.is_child: self._is_normalized = False"; "if schema is not None: self.schema = DefinitionSchema(self, schema) else: if self.schema is None:
     if isinstance(self.allow_unknown, Mapping):
         self._schema = {}
